@@ -160,6 +160,14 @@ def run(ck):
 
     # ------------------------------------------------------------------ R11.3
     ee = prog.classes.get('block:SBlock._enable_event')
+    if ee is None:
+        # the same context manager written without the "@property class" trick:
+        # `class _X: ...` + `_enable_event = property(_X)` in the body of SBlock
+        for st_ in sblock.node.body:
+            if isinstance(st_, ast.Assign) and any(norm(t) == '_enable_event' for t in st_.targets) and \
+                    isinstance(st_.value, ast.Call) and norm(st_.value.func) == 'property' and \
+                    len(st_.value.args) == 1 and isinstance(st_.value.args[0], ast.Name):
+                ee = prog.classes.get(f'block:SBlock.{st_.value.args[0].id}')
     ck.need(R3, ee is not None, "SBlock._enable_event not found")
     enter, exit_ = ee.methods.get('__enter__'), ee.methods.get('__exit__')
     ck.need(R3, enter is not None and exit_ is not None, "_enable_event.__enter__/__exit__ missing")
